@@ -392,3 +392,19 @@ HYPOTHESES = ['field_theory of the dictionary operations (F is a field)', 'feqb 
 
 # pinned theorems that instantiate this package's abstract-field theorems at the executed ZpOps dictionary
 EXTRA_PROP_FILES = ['Bridge', 'Bridge2']
+
+# T-field translator (lib/xlate_field.py): coq/Gen/GenField.v is regenerated from the working tree's source text before
+# the Coq build; Props/Gen.v (generated formulas = the models the theorems are about + corollaries) is a strict obligation
+STRICT_PROP_FILES = ['Gen']
+
+
+def _gen_regen(ctx):
+    import importlib.util, os
+    sp = importlib.util.spec_from_file_location('gen_pre', os.path.join(ctx['ROOT'], 'props', 'Gen', 'pre.py'))
+    m = importlib.util.module_from_spec(sp); sp.loader.exec_module(m)
+    m.regen(ctx)
+
+
+def pre(ctx):
+    _gen_regen(ctx)
+
